@@ -13,8 +13,9 @@ EXPLANATION = (
     "current statement count, predefined, adds no statement and does not advance the line counter; the preprocessor maps it "
     "to a marker token and no data. R5 (DOM): every Proceed of the pausing code is dominated by the breakpoint/HALT test, "
     "which is given the current PC, and in the run loop the pausing call is on every path to execute while attached."
-    ' R3 follows the .break list from try_from through Debugger::new into the breakpoints field and requires exactly one with_orig on that route. R5 also: outside the interrupt check the just-paused marker may only be cleared.'
+    ' R3 follows the .break list from try_from through Debugger::new into the breakpoints field and requires exactly one with_orig on that route. R5 also: outside the interrupt check the just-paused marker may only be cleared. R3 also: with_orig adds the origin unconditionally (the addition lies on every way round the loop or through the closure). R5 also: behind the Some edge of the breakpoint lookup every path stops (only the just-paused test may let it through).'
 )
+
 NOT_DECIDED = ("that the shape rules of insert amount to sortedness for every history (argued on paper from R2); the "
                "re-arming of a breakpoint across loop revisits (current_breakpoint logic) is only checked to be reset on the "
                "no-interrupt path")
@@ -625,6 +626,26 @@ def run(ctx):
                                 if base[0] == "arg" and base[1] == 1 and any(z[0] == "arg" and z[1] == 2 for z in expr_walk(caps[int(y[2])])):
                                     cap_is_orig = True
                     adds.append("address + orig" if has_addr and cap_is_orig else expr_str(e2, 60))
+    # ... and unconditionally: in the loop form the addition lies on every way round the loop, in the adaptor forms on every way through the closure
+    uncond = True
+    lps_w = kit.loops(wf)
+    for b, i, s in wf.assigns():
+        if s["r"]["k"] == "bin" and s["r"]["op"].startswith("Add"):
+            for h_, (body_, latches_) in lps_w.items():
+                if b in body_ and not all(wf.dominates(b, l_) for l_ in latches_):
+                    uncond = False
+    for b, t, c in wf.calls():
+        ce_ = kit.strip_refs(wf.expr(t["args"][1], 6)) if c and re.search(r"Iterator>?::(for_each|map)$", c) and len(t["args"]) == 2 else None
+        if ce_ and ce_[0] == "agg" and ce_[1][0] == "closure" and ce_[1][1] in prog.fns:
+            g_ = prog.fns[ce_[1][1]]
+            for b2, i2, s2 in g_.assigns():
+                if s2["r"]["k"] == "bin" and s2["r"]["op"].startswith("Add"):
+                    if any(not g_.dominates(b2, rb_) for rb_ in g_.live_blocks() if g_.term(rb_)["k"] == "return"):
+                        uncond = False
+    ctx.oblig(uncond, {"with_orig": "the addition is made for every element"}, "dominates every way round the loop / through the closure")
+    if not uncond:
+        ctx.violation("with_orig-conditional", wf.file_line(), "with_orig adds the origin only to some breakpoints (the addition does not lie on every way round the loop): "
+                      "a `.break` whose statement index is not below the origin keeps its index as its address and never pauses")
     ctx.oblig(len(adds) == 1 and "orig" in adds[0] and "address" in adds[0], {"with_orig body": adds}, "address += orig, once per element")
     if not (len(adds) == 1 and "orig" in adds[0] and "address" in adds[0]):
         ctx.violation("with_orig-body", wf.file_line(), "with_orig computes %s per breakpoint (expected address + orig)" % adds)
@@ -787,6 +808,41 @@ def run(ctx):
     if not okf:
         ctx.violation("marker-compare", cf.file_line(), "a found breakpoint must be let through only when the just-paused marker names this very address (`%s != Some(pc)`); "
                       "the marker is examined by %s: resuming from one breakpoint can then run through a different one" % (mk, badt or "nothing"))
+    # a breakpoint that was found - and is not the one just left - always stops: behind the Some edge of the lookup (with the marker test
+    # folded into it, or made right behind it) no path reaches a return without the stop; any further condition there (a source line that
+    # must exist, a flag) lets execution run through breakpoints it does not hold for
+    ctx.instance(1)
+    some_edges = []
+    for sb_ in sorted(cf.live_blocks()):
+        tt_ = cf.term(sb_)
+        sd_ = kit.switch_on_discr_of_local(cf, sb_)
+        if tt_["k"] != "switch" or not sd_ or sd_[1] != "core::option::Option":
+            continue
+        src_ = cf.expr(tt_["a"], 12)
+        if any(x[0] == "call" and x[1] == BP + "::get" for x in expr_walk(src_)):
+            some_edges.append({v: x for v, x in tt_["targets"]}.get(1, tt_["otherwise"] if 0 in {v for v, x in tt_["targets"]} else None))
+    equal_edges = set()
+    for f_, b_, t_, c_, args in tests:
+        if f_ is cf and c_ and t_.get("t") is not None and re.search(r"PartialEq(>)?::(eq|ne)$", str(c_)):
+            sw_ = cf.term(t_["t"])
+            if sw_["k"] == "switch":
+                tg_ = {v: x for v, x in sw_["targets"]}
+                true_t, false_t = (sw_["otherwise"] if 0 in tg_ else tg_.get(1)), tg_.get(0, sw_["otherwise"])
+                equal_edges.add(true_t if str(c_).endswith("eq") else false_t)
+    equal_edges.discard(None)
+    leaks = set()
+    for se in some_edges:
+        if se is not None:
+            leaks |= (cf.reachable(se, avoid=wb_cf | equal_edges) | {se}) & set(rets)
+    okl = bool(some_edges) and not leaks
+    ctx.oblig(okl, {"found breakpoint": "stops on every path behind the lookup's Some edge (marker test aside)"}, "must-pass-through")
+    if not okl:
+        pth = None
+        for se in some_edges:
+            pth = pth or (cf.path(se, leaks, avoid=wb_cf | equal_edges) if se is not None and leaks else None)
+        ctx.violation("found-breakpoint-not-stopped", cf.file_line(),
+                      "behind a successful breakpoint lookup the interrupt check can still return without pausing%s: some further condition decides whether a breakpoint "
+                      "that is in the list (and is not the one just left) stops execution" % (" (lines %s)" % cf.path_lines(pth) if pth else ""))
     for b in sorted(mk_blocks):
         for s_ in cf.stmts(b):
             if s_["k"] == "assign" and [e.get("n") for e in s_["p"].get("pr", []) if isinstance(e, dict) and "f" in e][-1:] == [mk]:
